@@ -21,6 +21,7 @@ import (
 	"go/ast"
 	"go/format"
 	"go/parser"
+	"go/printer"
 	"go/token"
 	"os"
 	"path/filepath"
@@ -113,8 +114,11 @@ func Build(o Options) (string, Stats, error) {
 			f := parsed[n]
 			r := &rewriter{fset: fset, file: f, rel: rel, mapFields: mapFields, st: &st}
 			r.rewrite()
+			// SourcePos: //line directives keep file names and line numbers of the
+			// original sources in stack traces, race reports and scheduler traces
 			var buf bytes.Buffer
-			if err := format.Node(&buf, fset, f); err != nil {
+			pc := printer.Config{Mode: printer.SourcePos | printer.UseSpaces | printer.TabIndent, Tabwidth: 8}
+			if err := pc.Fprint(&buf, fset, f); err != nil {
 				return "", st, fmt.Errorf("instr: printing %s: %v", rel, err)
 			}
 			out := filepath.Join(o.WorkDir, "src", pkg, n)
